@@ -3447,6 +3447,29 @@ def lower_expressions(tree: ast.Module, modname: str) -> List[str]:
                     ast.fix_missing_locations(st)
                     res.append(pre)
                     notes.append("helper call in argument position bound to a local first")
+                # a comprehension run for its effects: `[self.m(v) for v in IT if C]` (bare, or bound to a name) is the loop it abbreviates
+                comp = st.value if isinstance(st, (ast.Expr, ast.Assign)) and isinstance(getattr(st, "value", None), ast.ListComp) else None
+                if comp is not None and len(comp.generators) == 1 and not comp.generators[0].is_async and isinstance(comp.generators[0].target, ast.Name) \
+                        and any(isinstance(n_, ast.Call) and isinstance(n_.func, ast.Attribute) and isinstance(n_.func.value, ast.Name) and n_.func.value.id == "self" for n_ in ast.walk(comp.elt)) \
+                        and (isinstance(st, ast.Expr) or (len(st.targets) == 1 and isinstance(st.targets[0], ast.Name))) \
+                        and sum(1 for n_ in ast.walk(d) if isinstance(n_, ast.Name) and n_.id == comp.generators[0].target.id and not any(n_ is m_ for m_ in ast.walk(comp))) == 0:
+                    gen_ = comp.generators[0]
+                    if isinstance(st, ast.Expr):
+                        inner: List[ast.stmt] = [ast.Expr(value=comp.elt)]
+                        pre_: List[ast.stmt] = []
+                    else:
+                        acc = st.targets[0].id
+                        inner = [ast.Expr(value=ast.Call(func=ast.Attribute(value=ast.Name(id=acc, ctx=ast.Load()), attr="append", ctx=ast.Load()), args=[comp.elt], keywords=[]))]
+                        pre_ = [ast.Assign(targets=[ast.Name(id=acc, ctx=ast.Store())], value=ast.List(elts=[], ctx=ast.Load()))]
+                    if gen_.ifs:
+                        inner = [ast.If(test=gen_.ifs[0] if len(gen_.ifs) == 1 else ast.BoolOp(op=ast.And(), values=list(gen_.ifs)), body=inner, orelse=[])]
+                    loop_ = ast.For(target=gen_.target, iter=gen_.iter, body=inner, orelse=[], type_comment=None)
+                    for r_ in pre_ + [loop_]:
+                        ast.copy_location(r_, st)
+                        ast.fix_missing_locations(r_)
+                    res.extend(pre_ + [loop_])
+                    notes.append("comprehension run for its effects read as a loop")
+                    continue
                 ln = lower_next(st)
                 if ln is not None:
                     fz = fuse_found(ln, stmts[idx + 1] if idx + 1 < len(stmts) else None)
